@@ -3356,3 +3356,27 @@ package decimal128
 //@ loop 2: invariant SGN ==> buf[S] == old(buf[S])
 //@ loop 2: decreases p - i
 //@ props C07 C20
+
+// uint192 helpers used only by the elementary functions: safety (no out-of-range table index, no
+// division trap) and termination; their callers are beyond the contracts' reach (C16/C17).
+//@ func uint192.lsh
+//@ props C20
+//@ func uint192.rsh
+//@ props C20
+//@ func uint192.log10
+//@ ensures 0 <= result && result <= 57
+//@ props C20
+//@ func uint192.msd2
+//@ loop 1: decreases n[2]
+//@ loop 2: decreases n128[1]
+//@ loop 3: decreases n64
+//@ loop 4: decreases n64
+//@ props C20
+// Decimal.writeSpecial (C20): NaN/Inf through a fmt.State; padding loops terminate, slices in range
+//@ func Decimal.writeSpecial
+//@ requires special(d) && width <= 100000000 && width >= 0 - 100000000
+//@ loop 1: invariant i >= 0
+//@ loop 1: decreases width - i
+//@ loop 2: invariant i >= 0
+//@ loop 2: decreases p - i
+//@ props C07 C20
